@@ -103,6 +103,9 @@ def blocks_for(fmt: str, problem: str, place: str, variant: int, name: str, raw:
             blk, first, prob = ['Bad %s text.' % bad], 0, 0
         elif place == 'para2':
             blk, first, prob = ['This paragraph starts here', 'and has %s text.' % bad], 0, 1
+        elif place == 'atline2':
+            # a tokenizer warning that names its own line inside the paragraph
+            blk, first, prob = ['This paragraph starts here', '@param without the colon'], 0, 1
         elif place == 'fieldbody':
             blk, first, prob = [fld('note', 'a note'), '    with %s text' % bad], 0, 1
         else:
@@ -118,6 +121,12 @@ def blocks_for(fmt: str, problem: str, place: str, variant: int, name: str, raw:
         elif fmt == 'numpy':
             blk, first, prob = ['Parameters', '----------', 'a', '    the a.', 'nosuchparam', '    nope'], 4, 4
             after = []
+        elif place == 'consol_list':
+            blk, first, prob = [':Parameters:', '    - `a`: the a.', '    - `nosuchparam`: nope', '      more'], 2, 2
+            clean_fields = [f for f in clean_fields if 'param a' not in f]
+        elif place == 'consol_deflist':
+            blk, first, prob = [':Parameters:', '    a', '        the a.', '    nosuchparam', '        nope'], 3, 3
+            clean_fields = [f for f in clean_fields if 'param a' not in f]
         else:
             blk, first, prob = [fld('param a', 'the a.'), fld('param nosuchparam', 'nope')], 1, 1
             clean_fields = [f for f in clean_fields if 'param a' not in f]
@@ -151,7 +160,9 @@ def places_for(fmt: str, problem: str) -> List[str]:
     if problem == 'xref':
         return ['para', 'para2', 'item', 'fieldbody'] if fmt in ('epytext', 'restructuredtext') else ['para', 'para2', 'item']
     if problem == 'markup':
-        return ['para', 'para2', 'fieldbody'] if fmt == 'epytext' else ['para', 'para2']
+        return ['para', 'para2', 'fieldbody', 'atline2'] if fmt == 'epytext' else ['para', 'para2']
+    if problem == 'param' and fmt == 'restructuredtext':
+        return ['-', 'consol_list', 'consol_deflist']
     return ['-']
 
 
@@ -266,7 +277,7 @@ def make_case(fmt: str, kind: str, problem: str, place: str, variant: int, layou
     layout = dict(layout)
     layout['code_indent'] = code_indent
     layout['ci'] = max(0, code_indent + layout.get('ci_delta', 0))
-    flat = place in ('para', 'para2') or (problem in ('field', 'param', 'consolidated') and fmt in ('epytext', 'restructuredtext')) or problem == 'none'
+    flat = place in ('para', 'para2', 'atline2') or (problem in ('field', 'param', 'consolidated') and fmt in ('epytext', 'restructuredtext') and not place.startswith('consol_')) or problem == 'none'
     force_before = bool(layout.get('opening_text')) and not flat
     if fmt == 'epytext' and place == 'item' and layout.get('opening_text'):
         # epytext cannot tell the indentation of text on the opening line ("Lists must be indented")
@@ -320,6 +331,37 @@ def random_layout(rng: random.Random, code_indent: int, want_excess: Optional[bo
     return lay
 
 
+EPY_VOCAB = ['', '  ', 'text', '  text', '    text', 'text::', '  more::', '- item', '  - item', '  1. num', '@param a: b', '@return:',
+             '@note', '  @bad field', '>>> code', '  >>> x', '====', '----', '~~~~', '=======', 'Title', 'Head', '- ::', '@a::', '- it::',
+             '    lit', '::', '      deep', ' x']
+
+
+def oracle_epytok(c: Dict[str, Any], r: Any) -> Optional[Dict[str, Any]]:
+    """Token.startline is the index of the first line of the token's block: start lines never decrease, a token other
+    than a literal block starts on a non-blank line, the first token starts on the first non-blank line, and -- when no
+    literal block swallows lines -- every non-blank line that follows a blank line (or is line 0) starts a token."""
+    if isinstance(r, dict):
+        return {'what': 'epytext._tokenize raised ' + r['exception'], 'expected': 'tokens', 'observed': r}
+    lines = c['text'].split('\n')
+    toks = r[1]
+    starts = [z for _, z in toks]
+    if starts != sorted(starts):
+        return {'what': 'token start lines decrease', 'expected': sorted(starts), 'observed': starts}
+    for tag, z in toks:
+        if tag != 3 and not (0 <= z < len(lines) and lines[z].strip()):
+            return {'what': 'a token (tag %d) starts on line %d, which is blank or outside the docstring' % (tag, z),
+                    'expected': 'a non-blank line', 'observed': z}
+    nonblank = [i for i, l in enumerate(lines) if l.strip()]
+    if nonblank and (not starts or starts[0] != nonblank[0]):
+        return {'what': 'the first token does not start on the first non-blank line', 'expected': nonblank[0], 'observed': starts[:1]}
+    if not any(tag == 3 for tag, _ in toks):
+        for i in nonblank:
+            if (i == 0 or not lines[i - 1].strip()) and i not in starts:
+                return {'what': 'line %d opens a block (it follows a blank line) but no token has that startline' % i,
+                        'expected': i, 'observed': starts}
+    return None
+
+
 # =============================================================================== multi-module projects
 class _Src:
     def __init__(self, rel: str, fmt: str, planted: List[Dict[str, Any]]):
@@ -332,6 +374,9 @@ class _Src:
             layout: Dict[str, Any], rule: str = 'once') -> None:
         before, blk, first_rel, prob_rel, after, msg = blocks_for(self.fmt, problem, place, variant, name, False, has_param)
         lay = dict(layout, code_indent=code_indent, ci=code_indent)
+        flat = place in ('para', 'para2') or (problem in ('field', 'param') and self.fmt in ('epytext', 'restructuredtext')) or problem == 'none'
+        if lay.get('opening_text') and not flat and not before:
+            before = [['Some plain text.']]      # see make_case: no block with indented continuation lines on the opening line
         value, pidx = docstring_value(lay, before, blk, after)
         n0 = len(self.lines) + 1
         self.lines += ((' ' * code_indent) + '"""' + value + '"""').split('\n')
@@ -542,7 +587,7 @@ def oracle(case: Dict[str, Any], obs: List[Dict[str, Any]]) -> Optional[Dict[str
             return {'what': 'the report carries no line number', 'expected': t['first'], 'observed': '???'}
         ln = int(line)
         if case['fmt'] == 'epytext':
-            ok = ln == t['first']
+            ok = ln == t['first'] or (case['place'] == 'atline2' and t['first'] <= ln <= t['prob'])
             exp: Any = t['first']
         elif case['fmt'] == 'restructuredtext':
             # docutils points inside the block: anywhere from its first line to the line holding the problem
@@ -629,7 +674,7 @@ def oracle_tail(c: Dict[str, Any], r: Any) -> Optional[Dict[str, Any]]:
 class Check(PropertyCheck):
     id = 'C16'
     props_module = 'Props.C16'
-    models = {'lines': 'XLines.v'}
+    models = {'lines': 'XLines.v', 'epy': 'XEpyLines.v'}
     rule = ('end-to-end: one module per (docformat x kind of docstring owner x planted problem x place x layout x offset k), '
             'distinct by construction of the generated source; non-trivial = a problem is planted and reported; '
             'unit: every text over {\\n,space,tab,a,\\x0c} up to the tier length, every msg() sequence up to length 2 over 32 calls, '
@@ -731,6 +776,27 @@ class Check(PropertyCheck):
             cases.append({'op': 'tail', 'verbosity': v, 'wae': wae, 'violations': viol, 'pe': pe})
         for line in [None, 0, 1, 2, 7, 40]:
             cases.append({'op': 'rstreader', 'line': line})
+        # (j) get_lineno on hand-built docutils nodes, field lines of the reST splitter, once=True call sites
+        for node_line in (None, 0, 4):
+            for anc in ([], [['a\nb `x` c', 3]], [['', None], ['p\n\nq `x`', 5]], [['zzz', 2]], [[None, 7]], [['`x` first', 1], ['u\n`x`', 9]]):
+                cases.append({'op': 'getlineno', 'node_line': node_line, 'ref_raw': '`x`', 'ancestors': anc})
+        cases.append({'op': 'getlineno', 'node_line': None, 'ref_raw': '', 'ancestors': [['a\nb', 3]]})
+        rdocs = [('Text.\n\n:param a: the a\n:returns: x\n    more\n:note: n', [3, 4, 6]),
+                 ('T\n\n:Parameters:\n    - `a`: the a.\n    - `b`: the b\n      more\n', [4, 5]),
+                 ('T\n\n:Parameters:\n    a : int\n        the a\n    b\n        bb\n', [4, 4, 6]),
+                 (':bogus: first line', [1])]
+        for doc, Ls in rdocs:
+            for i, L in enumerate(Ls):
+                cases.append({'op': 'rstfields', 'doc': doc, 'index': i, 'L': L})
+        cases.append({'op': 'oncesites'})
+        # (i) epytext tokenizer: token kinds and start lines
+        elen = 2 if quick else 3
+        for L in range(0, elen + 1):
+            for tup in itertools.product(EPY_VOCAB, repeat=L):
+                cases.append({'op': 'epytok', 'text': '\n'.join(tup)})
+        for _ in range(2500 if quick else 60000):
+            cases.append({'op': 'epytok', 'text': '\n'.join(rng.choice(EPY_VOCAB) for _ in range(rng.randint(3, 12)))})
+        self.stats['unit_epytok_exhaustive_maxlines'] = elen
         for own, modp in (('/p/pkg/_impl.py', '/p/pkg/__init__.py'), ('/p/a.py', '/p/a.py'), (None, '/p/pkg/__init__.py'), ('/p/x.py', None), (None, None)):
             cases.append({'op': 'descr', 'own_path': own, 'mod_path': modp})
         for n in (0, 1, 3):
@@ -768,6 +834,16 @@ class Check(PropertyCheck):
                 if sec == 'docstring':
                     n = len(names)
             return enc([6, c['verbosity'], c['wae'], "these %d objects' docstrings contain syntax errors:" % n, c['violations'], c['pe']])
+        if op == 'getlineno':
+            anc = []
+            for raw, line in c['ancestors']:
+                if line:
+                    nl = raw[:raw.index(c['ref_raw'])].count('\n') if (raw and c['ref_raw'] and c['ref_raw'] in raw) else 0
+                    anc = [[line, nl]]
+                    break
+            return enc([11, c['node_line'] or 0, anc])
+        if op == 'rstfields':
+            return enc([12, c['L']])
         if op == 'descr':
             return enc([10, [] if c['own_path'] is None else [c['own_path']], 'pkg'])
         if op == 'rstconsol':
@@ -791,6 +867,20 @@ class Check(PropertyCheck):
             mm, ii = [m[0], [txt(x) for x in m[1]], sorted(txt(x) for x in m[2])], r[:3]
         elif op == 'tail':
             mm, ii = m, r
+        elif op == 'getlineno':
+            mm, ii = m, r
+        elif op == 'rstfields':
+            mm, ii = m, (r[c['index']][2] if c['index'] < len(r) else None)
+        elif op == 'oncesites':
+            secs = [x[1] for x in r]
+            ok = r and all(isinstance(x[1], str) and x[1] != '<not a literal>' and isinstance(x[2], int) for x in r) and len(set(secs)) == len(secs)
+            mm, ii = ('every once=True call site of System.msg has its own literal section and a literal threshold '
+                      '(guard of C16_once_suppressed_already_counted / once_consistent)', True), (r, bool(ok))
+            if ok:
+                return None
+            return (mm, ii)
+        elif op == 'epytok':
+            mm, ii = [m[0], m[1], m[2]], [1, r[1], r[2]]
         elif op == 'descr':
             mm, ii = txt(m), r
         elif op in ('rstreader', 'rstconsol'):
@@ -809,6 +899,10 @@ class Check(PropertyCheck):
         mouts = self.model('lines', [self.model_input(cases[i]) for i in idx])
         mod: Dict[int, Any] = {i: dec(o) for i, o in zip(idx, mouts)}
         self.evaluations += len(cases)
+        eidx = [i for i, c in enumerate(cases) if c['op'] == 'epytok' and not isinstance(impl[i], dict)]
+        emouts = self.model('epy', [enc(impl[i][0]) for i in eidx])
+        for i, o in zip(eidx, emouts):
+            mod[i] = dec(o)
         ncorr = 0
         noracle = 0
         for i, (c, r) in enumerate(zip(cases, impl)):
@@ -845,8 +939,8 @@ class Check(PropertyCheck):
                     self.count('unit_doc_oracle_failures')
                     out.append(Violation('oracle', o['what'], case=dict(c, excess=o.get('excess', 0)), expected=o['expected'],
                                          observed=o['observed']))
-            elif c['op'] in ('msgs', 'tail'):
-                o = (oracle_msgs if c['op'] == 'msgs' else oracle_tail)(c, r)
+            elif c['op'] in ('msgs', 'tail', 'epytok'):
+                o = {'msgs': oracle_msgs, 'tail': oracle_tail, 'epytok': oracle_epytok}[c['op']](c, r)
                 if o is not None and noracle < 20:
                     noracle += 1
                     out.append(Violation('oracle', o['what'], case=c, expected=o['expected'], observed=o['observed']))
@@ -947,6 +1041,9 @@ class Check(PropertyCheck):
                     break
                 pl = problem_lines(o['stdout'])
                 reported += len([p for p in pl if c['msg'] and c['msg'] in p[2]])
+                if c['fmt'] != 'epytext' and any(o.get('xref_own_line', [])):
+                    bad = ('a reference parsed by docutils carries its own line (guard of C16_get_lineno_rst)', False, True)
+                    break
                 if o.get('ln') != t['def_line']:
                     bad = ('linenumber of %s' % c['target'], t['def_line'], o.get('ln'))
                     break
@@ -1105,7 +1202,7 @@ class Check(PropertyCheck):
             if ws + rst > 0 and isinstance(v.observed, int) and isinstance(c.get('first'), int):
                 adj = v.observed - ws - rst
                 if c['fmt'] == 'epytext':
-                    ok = adj == c['first']
+                    ok = adj == c['first'] or (c['place'] == 'atline2' and c['first'] <= adj <= c['prob'])
                 elif c['fmt'] == 'restructuredtext':
                     ok = c['first'] <= adj <= c['prob']
                 else:
@@ -1141,8 +1238,8 @@ class Check(PropertyCheck):
             print('pydoctor :', json.dumps(r)[:1500])
             if data.get('expected') is not None:
                 print('recorded expectation:', json.dumps(data['expected'])[:800])
-            if case['op'] in ('doc', 'msgs', 'tail'):
-                o = {'doc': oracle_doc, 'msgs': oracle_msgs, 'tail': oracle_tail}[case['op']](case, r)
+            if case['op'] in ('doc', 'msgs', 'tail', 'epytok'):
+                o = {'doc': oracle_doc, 'msgs': oracle_msgs, 'tail': oracle_tail, 'epytok': oracle_epytok}[case['op']](case, r)
                 print('property :', (o['what'] + ' expected=%s observed=%s' % (str(o['expected'])[:300], str(o['observed'])[:300])) if o
                       else 'holds on this input')
                 return 1 if o else 0
